@@ -1,0 +1,102 @@
+//go:build verif
+
+// Contracts for the verification machinery in /verif (comment-only; no code).
+// Iterative DHT operations: no node is contacted twice; the reported results are truthful.
+// Termination is not decided.
+
+package kademlia
+
+//@ func pop
+//@   inline
+//@
+//@ func contains
+//@   inline
+//@   loop 0:
+//@     invariant 0 <= i && i <= len(xs)
+//@   fnspec fn:
+//@     pure
+//@
+//@ func dhtIterate
+//@   noframe
+//@   requires n >= 1
+//@   ghostvar asked = emptyset(node.ID)
+//@   before call fn:
+//@     assert [once] !has(ghost(asked), arg0.ID)
+//@     set asked = add(ghost(asked), arg0.ID)
+//@   fnspec fn:
+//@     ensures subsetdom(ghost(asked), contacted)
+//@   loop 0:
+//@     invariant subsetdom(ghost(asked), contacted)
+//@   loop 1:
+//@     invariant subsetdom(ghost(asked), contacted)
+//@     invariant 0 <= _i && _i <= len(newNodes)
+
+// ---- truthful results: what each operation records per contacted node ---------------------------
+
+//@ func DHTPut$1
+//@   noframe
+//@   ghostvar acc = false
+//@   ghostvar closer = false
+//@   ensures [contacted] res.Contacted == old(res.Contacted) + 1
+//@   ensures [count] res.Accepted == old(res.Accepted) + (ghost(acc) ? 1 : 0)
+//@   ensures [closest] ghost(acc) && (old(res.Accepted) == 0 || ghost(closer)) ==> res.Closest == node.ID
+//@   ensures [keep] !(ghost(acc) && (old(res.Accepted) == 0 || ghost(closer))) ==> res.Closest == old(res.Closest)
+//@   after call Ask:
+//@     set acc = res1 == nil && res0.Accepted
+//@   before call DistanceLt:
+//@     assert [cmp] arg0 == params.Key
+//@   after call DistanceLt:
+//@     set closer = res0
+//@   fnspec Ask:
+//@     pure
+//@
+//@ func DHTGet$2
+//@   noframe
+//@   ghostvar responded = false
+//@   ghostvar closer = false
+//@   ensures [responded] res.NumResponded == old(res.NumResponded) + (ghost(responded) ? 1 : 0)
+//@   ensures [closest] ghost(responded) && (old(res.NumResponded) == 0 || ghost(closer)) ==> res.Closest == node.ID
+//@   ensures [keep] !(ghost(responded) && (old(res.NumResponded) == 0 || ghost(closer))) ==> res.Closest == old(res.Closest)
+//@   after call Ask:
+//@     set responded = res1 == nil
+//@   after call DistanceLt#1:
+//@     set closer = res0
+//@   fnspec Ask:
+//@     pure
+//@   fnspec Validate:
+//@     pure
+
+// ---- the four operations: they never hand dhtIterate a non-positive width, and report an error
+// exactly when the result is insufficient ----------------------------------------------------------
+
+//@ func DHTJoin
+//@   noframe
+//@   ensures true
+//@   fnspec AddPeer:
+//@     pure
+//@   fnspec Ask:
+//@     pure
+//@
+//@ func DHTPut
+//@   noframe
+//@   ensures [truthful] ret0 != nil && (ret1 != nil <==> ret0.Accepted < (params.MinAccepted < 1 ? 2 : params.MinAccepted))
+//@   after call dhtIterate:
+//@     preserves params.MinAccepted
+//@   fnspec Ask:
+//@     pure
+//@
+//@ func DHTGet
+//@   noframe
+//@   ensures ret0 != nil
+//@   fnspec Ask:
+//@     pure
+//@   fnspec Validate:
+//@     pure
+//@
+//@ func DHTFindNode
+//@   noframe
+//@   ensures ret0 != nil
+//@   fnspec Ask:
+//@     pure
+//@   fnspec Validate:
+//@     pure
